@@ -204,6 +204,11 @@ def r6_poison_recovered(ctx, P, R="C19.R6"):
             users = [(us, ut) for us, ut in b.calls() if any(flow.op_local(a) == l for a in ut["args"])]
             ok = len(users) == 1 and users[0][1]["f"].get("path") == "core::result::Result::<T, E>::unwrap_or_else" and \
                 any("PoisonError" in (a.get("s") or "") and "into_inner" in (a.get("s") or "") for a in users[0][1]["f"].get("args", [])[2:])
+            if not users:
+                # written as a `match`: the Err arm must recover the guard, and nothing in the body may unwrap
+                names = [ut["f"].get("path", "") for _, ut in b.calls()]
+                ok = any(n.endswith("PoisonError::<T>::into_inner") for n in names) and \
+                    not any(n.split("::")[-1] in ("unwrap", "expect", "unwrap_unchecked") for n in names)
             ctx.inst(R, b.path, ok, "poisoning is recovered (PoisonError::into_inner)" if ok else
                      f"the LockResult of {t['f']['path'].split('::')[-1]} goes to {[u[1]['f'].get('path') for u in users]}: a poisoned mutex "
                      "(a getter panicked on capacity overflow while holding the lock) makes every later use of the pool panic",
